@@ -14,6 +14,8 @@ AL = Sym("alpha", ("float", "notnone"))
 
 
 def run(ctx, chk, tier):
+    from . import c01 as _c01
+    _c01.flag_identity(ctx, chk)   # direction flags: identity comparisons need BinaryLabel members on every construction path
     chk.rule_text = ("obligations per receiver class (Scores, GroupScores) x metric kind (callable, name): replicate loop, name resolution, CI assembly; custom sampler dispatch; "
                      "entropy sources over all built-in sampling paths; non-trivial = obligation mentions derived call terms")
     chk.explanation = ("bootstrap_metric is evaluated with an opaque metric: row j of the buffer is metric(sample_j, **kwargs) where sample_j is the result of this iteration's "
